@@ -128,6 +128,9 @@ def run(repo: Repo, rep: Report, tier: str) -> None:
     from ..core import direction
     direction.report(repo, rep, "R08.6")
     _default_literal(repo, rep)
+    from ..core import helper_contracts as _hc
+    _hc.report(repo, rep, "R08.8", _hc.get_config_contract(repo), "mashumaro.core.meta.code.builder::CodeBuilder.get_config")
+    _hc.report(repo, rep, "R08.8", _hc.codegen_option_contract(repo), "mashumaro.core.meta.code.builder::CodeBuilder.is_code_generation_option_enabled")
 
 def _r08_2(repo: Repo, rep: Report) -> None:
     fi = repo.func(M_BUILDER, "CodeBuilder.get_dialect_or_config_option")
@@ -255,3 +258,6 @@ def _r08_5(repo: Repo, rep: Report) -> None:
 _ADDENDUM = ' R08.6: direction discipline -- a function of the serialization half never refers to a helper of the deserialization half (128 mirrored identifiers) and vice versa. R08.7: the text that stands for a field default in the omit_default comparison denotes the default (by-identity binding, or a rendering that round-trips under its guard).'
 EXPLANATION += _ADDENDUM
 LEVEL_TEXT += _ADDENDUM
+_ADD2 = ' R08.8: contracts of get_config (own vs inherited Config, completion of a non-BaseConfig Config) and is_code_generation_option_enabled, evaluated on their own bodies.'
+EXPLANATION += _ADD2
+LEVEL_TEXT += _ADD2
